@@ -1,7 +1,8 @@
 \* intended design: all call sequences <= 5 (VIEW hides the history), all four cache configurations
 CONSTANTS
-  Objs = {1, 2, 3, 8}
-  Types = {"P", "D"}
+  Objs = {1, 2, 3, 8, 9}
+  Types = {"P", "D", "VM", "VR"}
+  TypesOf <- MC_TypesOf
   Loads <- MC_Loads
   Streams = {4}
   MaxCalls = 5
